@@ -177,7 +177,7 @@ CHECKS['C04'] = dict(title='Argument evaluation is memory-safe for every argumen
     level_text='every argv of <= 2 words of <= 3 raw characters (quick: second word <= 2), every line of <= 3 (quick) / <= 4 (thorough) tokens, program names of every length up to 3 and at allocator boundaries, each through 8 source/flag modes (plain, program-argument file absent/present, environment unset/empty/set, argument file, Groups) on a handler with every destination kind',
     level_note='oracle is the sanitizer (heap/stack/global overflow, use after free, mismatched delete, null dereference, libstdc++ assertions) + outcome type; a crash ends the case it occurs in (the remaining lines of that case are not run, the case is reported)',
     rule='case = (alphabet family, first word[s]); within a case all continuations x 8 modes; states = argument vectors x modes, transitions = evalArguments calls; non-trivial = cases',
-    bound={'quick': 'raw: 1110 first words x 110 second words; tokens: lines <= 3 of 59 tokens; 69 program names', 'thorough': 'raw: 1110 x 1110, 3 words of <= 2 chars; tokens: lines <= 4 (4th token in plain mode)'},
+    bound={'quick': 'raw: 1156 first words (<= 3 chars over 10 characters; <= 2 chars also over blank and 0xff) x 156 second words; tokens: lines <= 3 of 60 tokens; 70 program names incl. the empty one', 'thorough': 'raw: 1156 x 1156, 3 words of <= 2 chars; tokens: lines <= 4 (4th token in plain mode)'},
     assumptions=['argc >= 1 and argv[argc] == nullptr (what the C runtime guarantees)', 'exit() is interposed: the help arguments are used with "continue after usage"'])
 
 CHECKS['C18'] = dict(title='The usage lists exactly the visible arguments, each once', engine='xenum',
